@@ -909,6 +909,11 @@ type assignRevokeSession struct {
 	prerevokeDone chan struct{}
 	assignDone    chan struct{}
 	revokeDone    chan struct{}
+
+	// cancelFetch cancels the context of this session's offset fetch;
+	// revoke calls it so that fetchOffsets cannot assign partitions
+	// after the session has revoked them.
+	cancelFetch func()
 }
 
 func newAssignRevokeSession() *assignRevokeSession {
@@ -1020,6 +1025,17 @@ func (s *assignRevokeSession) revoke(g *groupConsumer, leaving bool) <-chan stru
 	go func() {
 		defer close(s.revokeDone)
 		<-s.assignDone
+		// The session's offset fetch runs concurrently with us and
+		// assigns what it fetched once it has a response. If that
+		// assign ran after our invalidation below, we would consume
+		// partitions the user was just told are revoked, until the
+		// next revoke. fetchOffsets checks its context under the
+		// consumer lock immediately before assigning: canceling here,
+		// before revoke takes that lock, means the fetch either
+		// assigned before we invalidate or does not assign at all.
+		if s.cancelFetch != nil {
+			s.cancelFetch()
+		}
 		g.revoke(revokeThisSession, nil, leaving)
 	}()
 	return s.revokeDone
@@ -1080,6 +1096,7 @@ func (g *groupConsumer) setupAssignedAndHeartbeat(initialHb time.Duration, hbfn 
 	// This will continue until the heartbeat errors, the group is killed,
 	// or the fetch offsets below errors.
 	ctx, cancel := context.WithCancel(g.ctx)
+	s.cancelFetch = cancel
 	go func() {
 		defer cancel() // potentially kill offset fetching
 		g.cfg.logger.Log(LogLevelInfo, "beginning heartbeat loop", "group", g.cfg.group)
@@ -1219,6 +1236,12 @@ func (g *groupConsumer) heartbeat(initialHb time.Duration, fetchErrCh <-chan err
 		case err = <-fetchErrCh:
 			fetchErrCh = nil
 			fetchErr = true
+			// Beginning our revoke cancels the offset fetch; that
+			// cancellation is not an error of the session.
+			if revoked != nil && errors.Is(err, context.Canceled) {
+				err = nil
+				fetchErr = false
+			}
 		case <-revoked:
 			revoked = nil
 			didRevoke = true
@@ -2345,6 +2368,15 @@ start:
 	defer g.c.mu.Unlock()
 	g.mu.Lock()
 	defer g.mu.Unlock()
+
+	// If the session began revoking while we were fetching, we must not
+	// assign: the revoke may have already invalidated everything, and
+	// assigning now would resume consuming revoked partitions. For
+	// cooperative consumers, returning an error keeps g.fetching so that
+	// the next session fetches these partitions again.
+	if err := ctx.Err(); err != nil {
+		return err
+	}
 
 	// Eager: we already invalidated everything; nothing to re-invalidate.
 	// Cooperative: assign without invalidating what we are consuming.
